@@ -144,6 +144,56 @@ def names_problems(model, types, ty, docs, root, flat):
     return ty_problems
 
 
+def expected_roots(model, ty):
+    """root element names the API model allows for a top-level document of this type: the xmlName of the operation payload member
+    that carries it, else the xmlName of the shape (for an operation output: of the operation's output shape), else the shape name"""
+    cands = set()
+    for op in model.ops:
+        for sh in (model.input_shape(op), model.output_shape(op)):
+            for name, m in (sh or {}).get("members", {}).items():
+                tr = m.get("traits", {})
+                if "smithy.api#httpPayload" in tr and m["target"] == NS + ty and "smithy.api#xmlName" in tr:
+                    cands.add(tr["smithy.api#xmlName"])
+    shape = model.shapes.get(NS + ty)
+    if ty.endswith("Output") and ty[:-6] in model.ops:
+        t = model.ops[ty[:-6]].get("output", {}).get("target")
+        if t in model.shapes:
+            shape = model.shapes[t]
+            if not cands:
+                cands.add(shape.get("traits", {}).get("smithy.api#xmlName", t.split("#")[-1]))
+    if shape is None:
+        return None
+    if not cands:
+        cands.add(shape.get("traits", {}).get("smithy.api#xmlName", ty))
+    return cands
+
+
+def root_names(rep, prog, types, hooks, model):
+    """every top-level serializer writes the root element the API model names"""
+    t1 = time.time()
+    problems, n = [], 0
+    for ty in sorted(set(t for (t, m) in prog.methods if m == "serialize")):
+        if types.shape(ty)[0] != "struct":
+            continue
+        want = expected_roots(model, ty)
+        if want is None:
+            continue                      # not a shape of the S3 model (STS AssumeRole)
+        try:
+            doc = hooks.top_serialize(ty, Builder(types).build(ty))
+        except rsx.Unsupported as u:
+            if "forks" in str(u):
+                continue
+            rep.fail_inconclusive("root element of %s: %s" % (ty, u))
+            continue
+        n += 1
+        root = doc.children[0].name if doc.children else None
+        if root not in want:
+            problems.append(("root-name-model:%s" % ty, "the document of %s has the root element <%s>, the model names it %s" % (ty, root, sorted(want)), doc.dump()))
+    if not problems:
+        rep.obligation("root element names of %d top-level documents as the API model prescribes" % n, "rsx+z3", "holds", time.time() - t1, queries=n)
+    return problems
+
+
 def encoder_only(rep, prog, types, hooks, model, pair_types):
     """types that are only ever encoded (operation outputs): element names, list shapes and element-to-member binding against the
     API model on the all-present documents (there is no decoder to round-trip through)"""
@@ -292,6 +342,7 @@ def run(rep, tier):
         problems += ty_problems
     eo_problems, n_eo = encoder_only(rep, prog, types, hooks, model, tys)
     problems += eo_problems
+    problems += root_names(rep, prog, types, hooks, model)
     rep.bound("%d encoder-only XML types (operation outputs): all-present documents with list lengths 1 and 2" % n_eo)
     # top-level documents
     tops = sorted(set(t for (t, m) in prog.methods if m == "serialize") & set(t for (t, m) in prog.methods if m == "deserialize"))
